@@ -797,7 +797,12 @@ LABEL:
 		case tokenEndStatement:
 			unexpected = true
 		case tokenEndStatements:
-			_, unexpected = p.parent().(*ast.Statements)
+			parent := p.parent()
+			if _, ok := parent.(*ast.Label); ok && len(p.ancestors) > 1 {
+				// A label without a statement: look at the node that contains it.
+				parent = p.ancestors[len(p.ancestors)-2]
+			}
+			_, unexpected = parent.(*ast.Statements)
 		default:
 			panic(end)
 		}
